@@ -58,6 +58,13 @@ def strs_of(repl):
 def to_replacements(repl, mode):
     if mode == 'attrs':
         return SimpleNamespace(**{k: v for k, v in repl.items()})
+    if mode == 'class_attrs':
+        # the usual settings object: values are class attributes (also inherited ones) and properties
+        items = list(repl.items())
+        base = type('BaseSettings', (), {k: v for k, v in items[::3]})
+        props = {k: property(lambda self, v=v: v) for k, v in items[1::3]}
+        cls = type('Settings', (base,), dict({k: v for k, v in items[2::3]}, **props))
+        return cls()
     return dict(repl)
 
 
@@ -163,6 +170,7 @@ class Placeholders(Suite):
             dict(obj='{{X}}', repl={'X': 'v', '{X': 'q'}, repl2={}, mode='dict'),
             dict(obj={'k': '{}'}, repl={'': 'empty'}, repl2={}, mode='dict'),
             dict(obj='}{', repl={}, repl2={}, mode='dict'),
+            dict(obj=['{A}/x', {'k': '{B}{C}', 'u': '{D}'}], repl={'A': 'a', 'B': 'b', 'C': 3}, repl2={}, mode='class_attrs'),
             dict(obj={'k': ['{X}', {'m': {'n': 'a{X}'}}]}, repl={'X': 'v'}, repl2={}, mode='dict', mappings='ordered'),
             dict(obj=[{'k': '{X}'}], repl={'X': 'v'}, repl2={}, mode='attrs', mappings='attr'),
         ]
@@ -171,7 +179,7 @@ class Placeholders(Suite):
         out = []
         for _ in range(500 if tier == 'quick' else 12000):
             repl = rand_repl(rng)
-            mode = 'attrs' if attr_ok(repl) and rng.random() < 0.4 else 'dict'
+            mode = rng.choice(['attrs', 'class_attrs']) if attr_ok(repl) and rng.random() < 0.5 else 'dict'
             out.append(dict(obj=rand_obj(rng, rng.choice([0, 1, 2, 3, 4])), repl=repl, repl2=rand_repl(rng), mode=mode))
             if rng.random() < 0.2:
                 out[-1]['mappings'] = rng.choice(['ordered', 'attr'])
@@ -255,7 +263,7 @@ class ConfigData(Suite):
             if rng.random() < 0.6:
                 ctx = {rng.choice(['p0', 'p1', 'c0', 'c1']): rand_obj(rng, rng.choice([0, 1])) for _ in range(2)}
             repl = rand_repl(rng)
-            mode = 'attrs' if attr_ok(repl) and rng.random() < 0.4 else 'dict'
+            mode = rng.choice(['attrs', 'class_attrs']) if attr_ok(repl) and rng.random() < 0.5 else 'dict'
             out.append(dict(data=data, ctx=ctx, repl=repl, mode=mode))
         return out
 
